@@ -4,6 +4,7 @@ from ..defuse import du_of, walk, peel, callee_name, fmt
 from ..conds import lits_of
 from ..callgraph import cg_of
 from ..common import arg_term, contains_call, call_named, ADAPTER_TRAIT, assigns_of_return
+from ..roles import roles_of
 from ..backends import backends, classify_effect, sql_literals, absence_lits, key_derived, METHODS
 
 TEXT = ("Sibling cross-check over every `impl Adapter` of every cargo feature configuration (memory, directory, SQLite, "
@@ -406,7 +407,7 @@ def check_consumers(facts, res):
             if t.callee is not None and t.callee.trait == ADAPTER_TRAIT and t.callee.name == "list_objects":
                 ls = [x[2] for x in walk(arg_term(b, t, 1, 8)) if x[0] == "const" and x[1] == "str"]
                 listed = ls[0] if ls else None
-        loader = facts.body("datastorage::DataStorage::try_load_pack")
+        loader = roles_of(facts).body("pack_loader")
         appended = None
         if loader is not None:
             for bi, t in loader.calls():
@@ -415,7 +416,7 @@ def check_consumers(facts, res):
                     cs = [x[2] for x in walk(k) if x[0] == "const" and x[1] == "str"]
                     pk = any(x[0] == "param" and x[1] == 2 for x in walk(k))
                     appended = cs[0] if cs and pk else None
-        uses_loader = any(t.callee is not None and t.callee.name == "try_load_pack" and
+        uses_loader = any(t.callee is not None and t.callee.name == roles_of(facts).name("pack_loader") and
                           contains_call(arg_term(b, t, 1, 30), "list_objects") for bi, t in b.calls())
         n += 1
         ok = listed is not None and listed == appended == pe and uses_loader
